@@ -201,6 +201,13 @@ func makePlan(shs []shape, thorough bool) plan {
 					attrVars: quickVars, revs: revs[:1], excl: sh.excl[:1]})
 			}
 		}
+		// fetchinclude: configurations that set lfs.fetchinclude (alone / with lfs.fetchexclude) so that some LFS paths are inside and
+		// some outside x every vector with <=1 damaged object x every revision argument.  Only lfs.fetchexclude may restrict fsck.
+		if thorough {
+			p.slices = append(p.slices, sliceDef{name: "fetchinclude/" + sh.name, shape: si, forms: sh.objForms, damages: damageVectors(n, 0, 1), flags: []flagSet{flNone, flObj, flDry}, excl: sh.inclCfgs})
+		} else {
+			p.slices = append(p.slices, sliceDef{name: "fetchinclude/" + sh.name, shape: si, forms: [][]form{canon}, damages: damageVectors(n, 0, 1), flags: []flagSet{flNone}, excl: sh.inclCfgs})
+		}
 		if !thorough {
 			// objects: all-canonical history x every vector with <=1 damaged object
 			// (fetchexclude is crossed here only for shape dup; for the others the pointers/* slice below crosses it with the mixed damage)
@@ -420,9 +427,9 @@ func (ev *env) run(x *vx.X) vx.Result {
 	fl := sl.flags[x.In(len(sl.flags))]
 	ex := excls[x.In(len(excls))]
 
-	id := fmt.Sprintf("%s forms=%s attrs=%s damage=%s rev=%q flags=%v exclude=%q", sh.name, formKey(assign), av.name, vecKey(vec), rv.arg, fl.args, ex.pattern)
+	id := fmt.Sprintf("%s forms=%s attrs=%s damage=%s rev=%q flags=%v exclude=%q include=%q", sh.name, formKey(assign), av.name, vecKey(vec), rv.arg, fl.args, ex.pattern, ex.include)
 	res := vx.Result{Counters: map[string]int64{}}
-	sample := map[string]interface{}{"shape": sh.name, "forms": formKey(assign), "gitattributes": av.name, "rev": rv.arg, "flags": strings.Join(fl.args, " "), "fetchexclude": ex.pattern}
+	sample := map[string]interface{}{"shape": sh.name, "forms": formKey(assign), "gitattributes": av.name, "rev": rv.arg, "flags": strings.Join(fl.args, " "), "fetchexclude": ex.pattern, "fetchinclude": ex.include}
 	dm := map[string]string{}
 	for i, d := range vec {
 		if d != dIntact {
@@ -442,12 +449,18 @@ func (ev *env) run(x *vx.X) vx.Result {
 	defer os.RemoveAll(dir)
 	lfsdir := filepath.Join(dir, ".git", "lfs")
 	applyDamage(lfsdir, sh, vec)
-	if ex.pattern != "" {
+	if ex.pattern != "" || ex.include != "" {
 		f, err := os.OpenFile(filepath.Join(dir, ".git", "config"), os.O_APPEND|os.O_WRONLY, 0644)
 		if err != nil {
 			panic(err)
 		}
-		fmt.Fprintf(f, "[lfs]\n\tfetchexclude = %s\n", ex.pattern)
+		fmt.Fprintf(f, "[lfs]\n")
+		if ex.include != "" {
+			fmt.Fprintf(f, "\tfetchinclude = %s\n", ex.include)
+		}
+		if ex.pattern != "" {
+			fmt.Fprintf(f, "\tfetchexclude = %s\n", ex.pattern)
+		}
 		f.Close()
 	}
 	before := snapshot(dir)
@@ -500,11 +513,18 @@ func (ev *env) run(x *vx.X) vx.Result {
 		switch lv {
 		case lvMust:
 			nMustBad++
+			outsideInclude := ex.include != "" && !exp.objInsideInclude[oid]
 			if reported[oid] {
 				cnt("O1.demanded-damaged-object-named/" + damageNames[damageOf[oid]])
+				if outsideInclude {
+					cnt("O1.demanded-damaged-object-outside-fetchinclude-named")
+				}
 			} else {
 				ctx := exp.objWhy[oid]
-				if exp.objAlsoExcluded[oid] {
+				if outsideInclude {
+					// lfs.fetchinclude is not documented to restrict fsck
+					ctx = "outside-fetchinclude"
+				} else if exp.objAlsoExcluded[oid] {
 					ctx = "shared-with-fetchexcluded-path"
 				}
 				viol("C13:object-not-reported:"+ctx, fmt.Sprintf("object %s is %s and is referenced by a checked, non-exempt LFS file (%s) but fsck does not name it", oid, damageNames[damageOf[oid]], exp.objWhy[oid]))
@@ -847,12 +867,14 @@ func TestVerifC13(t *testing.T) {
 		"quick: objects/* = all-canonical history x every damage vector with <=1 damaged object (5 damage kinds) x {no flag, --dry-run} (fetchexclude crossed only for shape dup); pointers/* = every other assignment over {canon,crlf,raw} x the mixed damage vector x {no flag, --pointers, --objects}. " +
 		"thorough: objects1/* = {all canonical, one mixed assignment} x <=1 damaged x {no flag, --objects, --pointers, --dry-run}; objects2/* = all canonical x exactly 2 damaged (all kind pairs) x {no flag}; pointers/* = every other assignment over {canon,crlf,raw,nonl} x {intact, mixed damage} x {no flag, --pointers, --dry-run}; " +
 		"flags/* = 4 further flag spellings on the mixed assignment; cross/{dup,staged} = the remaining (assignment over {canon,crlf,raw} x single damage) cells (staged: also under --dry-run) so that forms x single damages is a full product there.  " +
+		"both tiers: fetchinclude/* = 2 configurations per shape that set lfs.fetchinclude (alone; together with lfs.fetchexclude), some LFS paths inside and some outside the include pattern, x every damage vector with <=1 damaged object x every revision argument (quick: all-canonical, no flag; thorough: + mixed assignment, x {no flag, --objects, --dry-run}).  " +
 		"both tiers: attrsize/misc = size and layout of the .gitattributes blobs (root and nested: 1023, 1024, 1025, 4000 bytes with the tracking lines first, 1024 and 4000 with them last; thorough adds both-large, all revision arguments and fetchexclude values) x all 27 assignments over {canon,crlf,raw} x {no flag, --pointers}.  " +
 		"distinct_nontrivial = distinct cases in which at least one object is damaged, one path is not a canonical pointer or a .gitattributes file is padded (all-intact all-canonical cases only count as executions)"
 	c.Assumptions = []string{
 		"scope per docs/man/git-lfs-fsck.adoc: no argument = HEAD plus (objects only) the index; one committish = that commit only; A..B = the commits in the range",
 		"A..B, objects: an object referenced by a tree of the range but already referenced in A or an ancestor may or may not be named (man page silent on whether unchanged files of the range count); objects first referenced inside the range must be named",
 		"paths matching lfs.fetchexclude are exempt from the object check; an object that a non-matching tracked path of the scope references as well is still demanded; for the pointer check of matching paths either answer is accepted (man page does not say)",
+		"lfs.fetchinclude does not restrict fsck: the man page names only lfs.fetchexclude ('any Git LFS files whose paths match one in that list will not be checked') and the statement quantifies over fetchexclude; an object needed by a tracked, non-excluded path is demanded whether or not the path matches lfs.fetchinclude",
 		"pointer problems that exist only in the index (no-argument form) may or may not be named: the statement says 'and index', the man page restricts the index to --objects",
 		"a pointer-shaped blob at a path that is not LFS-tracked references an object 'maybe': naming its damaged object is accepted, not demanded; such a file is never a pointer problem",
 		"the label (openError vs corruptObject) is not part of the property except that a deleted object must not be called corrupt; duplicate lines are tolerated; the NAME shown next to an oid is not checked",
@@ -886,7 +908,7 @@ func TestVerifC13(t *testing.T) {
 	if n, err := strconv.Atoi(os.Getenv("VERIF_C13_WORKERS")); err == nil && n > 0 {
 		workers = n
 	}
-	e := &vx.Explorer{Name: "C13", Workers: workers, BoundEnv: 0, BoundSch: 0, BoundSum: -1, Run: ev.run, Deadline: c.DeadlineAfter(165*time.Second, 23*time.Minute)}
+	e := &vx.Explorer{Name: "C13", Workers: workers, BoundEnv: 0, BoundSch: 0, BoundSum: -1, Run: ev.run, Deadline: c.DeadlineAfter(300*time.Second, 23*time.Minute)}
 	st := e.Explore()
 	extra := map[string]interface{}{"base_repositories_built": len(ev.bases.m), "planned_cases": total}
 	code := c.Finish([]vx.Part{{Scenario: "fsck", Stats: st, Exec: exec}}, extra)
